@@ -16,6 +16,7 @@
 # limitations under the License.
 # -----------------------------------------------------------------------------
 import abc
+import contextvars
 import logging
 from typing import Any
 from collections.abc import Coroutine
@@ -54,6 +55,11 @@ class MemoryKeyStorage(PublicKeyStorage):
 
     def save(self, name: FormalName, key_bits: bytes):
         self._cache[Name.to_bytes(name)] = key_bits
+
+
+# Names of the certificates being fetched on behalf of the packet currently under validation.
+# The validator of a fetched certificate runs in the task that fetches it, so it sees the same context.
+_fetching: contextvars.ContextVar[tuple[bytes, ...]] = contextvars.ContextVar('cascade_fetching', default=())
 
 
 class CascadeChecker:
@@ -103,7 +109,13 @@ class CascadeChecker:
                 self.logger.debug('Use cached public key.')
             else:
                 self.logger.debug('Cascade fetching public key ...')
+                fetching = _fetching.get()
+                cert_name_bytes = Name.to_bytes(cert_name)
+                if cert_name_bytes in fetching:
+                    self.logger.debug('Certificate chain loops back to a certificate being validated.')
+                    return False
                 # Try to fetch
+                token = _fetching.set(fetching + (cert_name_bytes,))
                 try:
                     _, _, key_bits = await self.app.express_interest(
                         name=cert_name, must_be_fresh=True, can_be_prefix=False,
@@ -111,6 +123,8 @@ class CascadeChecker:
                 except (ValidationFailure, InterestTimeout, InterestNack):
                     self.logger.debug('Public key not valid.')
                     return False
+                finally:
+                    _fetching.reset(token)
                 self.logger.debug('Public key fetched.')
                 if key_bits:
                     self.storage.save(cert_name, key_bits)
